@@ -88,8 +88,19 @@ class Env(object):
     def __init__(self):
         self.tmp = tempfile.mkdtemp(prefix='verif_c20_', dir='/dev/shm' if os.path.isdir('/dev/shm') else None)
         self.path = os.path.join(self.tmp, 'f.tdms')
+        self.handles = []
+
+    def reset_handles(self):
+        for f in self.handles:
+            if not f.closed:
+                try:
+                    f.close()
+                except Exception:  # noqa
+                    pass
+        self.handles = []
 
     def put(self, data, idx):
+        self.reset_handles()
         with open(self.path, 'wb') as f:
             f.write(data)
         ip = self.path + '_index'
@@ -101,8 +112,40 @@ class Env(object):
                 f.write(idx)
 
     def leaks(self):
+        """files under our temp directory that are still open: descriptors listed in /proc/self/fd, and file objects
+        handed out by open() (recorded by the wrapper below, which keeps them alive so that a handle the library merely
+        dropped - and only the reference counter closed - is still seen as not closed by the library)"""
         real = os.path.realpath(self.tmp)
-        return sorted(t for t in fd_snapshot().values() if t.startswith(real) or t.startswith(self.tmp))
+        out = set(os.path.basename(t) for t in fd_snapshot().values() if t.startswith(real) or t.startswith(self.tmp))
+        out.update(os.path.basename(f.name) for f in self.handles if not f.closed)
+        return sorted(out)
+
+    def __enter__(self):
+        import builtins
+        self.handles = []
+        self._open = builtins.open
+        env = self
+
+        def recording_open(file, *a, **kw):
+            f = env._open(file, *a, **kw)
+            try:
+                if isinstance(file, str) and (file.startswith(env.tmp) or os.path.realpath(file).startswith(os.path.realpath(env.tmp))):
+                    env.handles.append(f)
+            except Exception:  # noqa
+                pass
+            return f
+        builtins.open = recording_open
+        return self
+
+    def __exit__(self, *exc):
+        import builtins
+        builtins.open = self._open
+        for f in self.handles:
+            try:
+                f.close()
+            except Exception:  # noqa
+                pass
+        self.handles = []
 
     def close(self):
         shutil.rmtree(self.tmp, ignore_errors=True)
@@ -139,6 +182,7 @@ def _safe_ops(tf):
 def scenario(env, api, src, data, idx):
     """Run one API scenario.  -> list of (kind, message) problems"""
     probs = []
+    env.reset_handles()   # whatever an earlier (possibly not judged) scenario left behind is not this scenario's business
     stream = io.BytesIO(data) if src == 'stream' else None
     source = stream if src == 'stream' else env.path
     H.signal.setitimer(H.signal.ITIMER_REAL, 3.0)
@@ -154,6 +198,12 @@ def scenario(env, api, src, data, idx):
                 lk = env.leaks()
                 if lk:
                     probs.append(('fd-leak', '%s returned and left %r open' % (api, lk)))
+                for k in (1, 2):
+                    try:
+                        tf.close()
+                    except Exception as e:  # noqa
+                        probs.append(('close-raised', 'close() number %d after %s raised %s: %s' % (k, api, type(e).__name__, e)))
+                        break
                 del tf
         elif api == 'with-open':
             try:
@@ -217,6 +267,24 @@ def scenario(env, api, src, data, idx):
         H.signal.setitimer(H.signal.ITIMER_REAL, 0)
     if stream is not None and stream.closed:
         probs.append(('caller-stream-closed', '%s closed the stream supplied by the caller' % api))
+    # the index handed over as a caller stream (it starts with TDSh): it must not be closed either
+    if src == 'stream' and idx is not None and api in ('read', 'read_metadata', 'with-open'):
+        istream = io.BytesIO(idx)
+        H.signal.setitimer(H.signal.ITIMER_REAL, 3.0)
+        try:
+            if api == 'with-open':
+                with H.TdmsFile.open(istream):
+                    pass
+            else:
+                getattr(H.TdmsFile, api)(istream)
+        except H.Watchdog:
+            pass
+        except Exception:  # noqa
+            pass
+        finally:
+            H.signal.setitimer(H.signal.ITIMER_REAL, 0)
+        if istream.closed:
+            probs.append(('caller-stream-closed', '%s closed the index stream supplied by the caller' % api))
     return probs
 
 
@@ -230,7 +298,7 @@ def run_base(item):
     data, idx, layout, ref = G.encode(hist, seed=seed, index=True)
     other = G.encode(base_files()['two-channels' if name != 'two-channels' else 'strings'], seed=seed, index=True)[1]
     res = {'counters': {'runs': 0, 'faults': 0, 'nontrivial': 0, 'raised_inputs': 0}, 'outcomes': {}, 'violations': [], 'samples': []}
-    env = Env()
+    env = Env().__enter__()
     seen = set()
 
     def record(fault, api, src, withidx, probs):
@@ -272,6 +340,7 @@ def run_base(item):
                     res['counters']['nontrivial'] += 1
                     record(ifault + dfault, api, 'path', True, scenario(env, api, 'path', fdata, fidx))
     finally:
+        env.__exit__()
         env.close()
     res['outcomes']['clean' if not res['violations'] else 'problem'] = 1
     res['counters']['watchdog_interrupts'] = HANGS[0]
@@ -284,7 +353,7 @@ def run_base(item):
 def writer_scenarios(_item):
     from nptdms import TdmsWriter, ChannelObject, RootObject
     res = {'counters': {'runs': 0, 'faults': 0, 'nontrivial': 0}, 'outcomes': {}, 'violations': [], 'samples': []}
-    env = Env()
+    env = Env().__enter__()
     try:
         for dest in ('path', 'stream'):
             for index in (False, True):
@@ -327,6 +396,7 @@ def writer_scenarios(_item):
                                                   'expected': 'no descriptor left, caller streams open', 'observed': msg,
                                                   'signature': {'kind': kind, 'dest': dest, 'index': index, 'how': how}})
     finally:
+        env.__exit__()
         env.close()
     return res
 
@@ -370,11 +440,12 @@ def replay(case):
             fdata = allf[repr(rest)]
     elif fault[0] != 'none':
         fdata = allf[repr(fault)]
-    env = Env()
+    env = Env().__enter__()
     try:
         env.put(fdata, fidx if case['index'] else None)
         probs = scenario(env, case['api'], case['src'], fdata, fidx)
     finally:
+        env.__exit__()
         env.close()
     if probs:
         return True, 'clean', probs[0][1]
